@@ -54,7 +54,8 @@ def run(prog: Program, res: Result) -> None:
     res.rules = ["R1 no store/aug/del/setattr through self._config / self._task / task (aliases followed)",
                  "R2 no mutating method call on a part of them",
                  "R3 not passed to a callee that writes its parameter (summaries by fixpoint)",
-                 "R4 no self-writing Task/Variable/config/LabelEncoder method reachable from optimize()"]
+                 "R4 no self-writing Task/Variable/config/LabelEncoder method reachable from optimize()",
+                 "R5 a task-method result that an optimizer changes in place is a fresh object (not state of the task)"]
     res.undecided = ["mutation of the task by the user's own objective_function"]
     closed_world(prog, res)
     resolver = Resolver(prog, None)
@@ -101,6 +102,55 @@ def run(prog: Program, res: Result) -> None:
                                 alias_fields[(fi.cls.qualname, t.attr)] = r[0]
     res.count("alias-fields", len(alias_fields))
 
+    # shallow copies of a rooted object (`<config>.model_copy()` without deep=True, copy.copy(<config>)): the copy is a new
+    # object, but every mutable field value (lists, nested models, arrays) is still the caller's
+    def shallow_of_root(fi: FuncInfo, v: ast.AST):
+        if not isinstance(v, ast.Call):
+            return None
+        if isinstance(v.func, ast.Attribute) and v.func.attr in ("model_copy", "copy") and not v.args:
+            deep = [k for k in v.keywords if k.arg == "deep"]
+            if deep and not (isinstance(deep[0].value, ast.Constant) and deep[0].value.value is False):
+                return None
+            if v.func.attr == "copy" and not any(k.arg in ("update", "deep") for k in v.keywords) and v.keywords:
+                return None
+            return actx.rooted(fi, v.func.value)
+        if dotted(v.func) in ("copy.copy", "copy") and len(v.args) == 1 and dotted(v.func) != "copy.deepcopy":
+            return actx.rooted(fi, v.args[0])
+        return None
+
+    shallow_fields: dict = {}
+    for fi in funcs:
+        for n in own_nodes(fi):
+            if isinstance(n, (ast.Assign, ast.AnnAssign)) and n.value is not None:
+                targets = n.targets if isinstance(n, ast.Assign) else [n.target]
+                for t in targets:
+                    if isinstance(t, ast.Attribute) and isinstance(t.value, ast.Name) and t.value.id == "self":
+                        r = shallow_of_root(fi, n.value)
+                        if r is not None:
+                            shallow_fields[(fi.cls.qualname, t.attr)] = r
+    res.count("shallow-copy-fields", len(shallow_fields))
+
+    def shallow_base(fi: FuncInfo, e: ast.AST):
+        """e (the container being written) lies at least one field below a shallow copy of a rooted object -> root"""
+        depth = 0
+        cur = e
+        while isinstance(cur, (ast.Attribute, ast.Subscript)):
+            # is `cur` itself the shallow copy?
+            if isinstance(cur, ast.Attribute) and isinstance(cur.value, ast.Name) and cur.value.id == "self" \
+                    and fi.cls is not None:
+                for ci_ in [fi.cls] + [b for b in prog.mro(fi.cls)] if hasattr(prog, "mro") else [fi.cls]:
+                    r = shallow_fields.get((ci_.qualname, cur.attr))
+                    if r is not None:
+                        return r if depth >= 1 else None
+            cur = cur.value
+            depth += 1
+        if isinstance(cur, ast.Name) and depth >= 1:
+            for val in actx.name_values(fi, cur):
+                r = shallow_of_root(fi, val) if val is not None else None
+                if r is not None:
+                    return r
+        return None
+
     # parameter-write summaries for all package functions
     pw = _param_writes(prog, resolver)
 
@@ -126,6 +176,10 @@ def run(prog: Program, res: Result) -> None:
             if tgt is not None:
                 n_sites += 1
                 r = actx.rooted(fi, tgt.value)
+                if r is None:
+                    r = shallow_base(fi, tgt.value)
+                    if r is not None:
+                        r = (r[0], r[1] + " (shared by a shallow copy)")
                 ok = r is None
                 res.ob(ok, f"{fi.module.relpath}:{n.lineno} {norm(parent(n) if isinstance(parent(n), ast.stmt) else n, 90)}"
                        if (not ok or n_sites % 40 == 0) else None, construct_key(prog, n, fi.module))
@@ -145,6 +199,10 @@ def run(prog: Program, res: Result) -> None:
                 # R2 mutating method
                 if isinstance(n.func, ast.Attribute) and n.func.attr in MUTATORS:
                     r = actx.rooted(fi, n.func.value)
+                    if r is None:
+                        r = shallow_base(fi, n.func.value)
+                        if r is not None:
+                            r = (r[0], r[1] + " (shared by a shallow copy)")
                     n_sites += 1
                     res.ob(r is None, None, construct_key(prog, n, fi.module))
                     if r is not None:
@@ -172,6 +230,55 @@ def run(prog: Program, res: Result) -> None:
                                        f"passed to {t.qualname} which writes its parameter `{kw.arg}`", r)
     res.count("write-sites-examined", n_sites)
     res.floor("write-sites-examined", 100)
+
+    # R5: what an optimizer changes in place after getting it from a task method must be a fresh object.  The alias analysis
+    # above *assumes* a call result is fresh; for the task's own methods the assumption is checked here.
+    mutated_results = {}
+    for fi in funcs:
+        got = {}     # local name -> (method name, call)
+        for n in own_nodes(fi):
+            if isinstance(n, ast.Assign) and isinstance(n.value, ast.Call) and isinstance(n.value.func, ast.Attribute) \
+                    and dotted(n.value.func.value) in ("self._task", "task"):
+                for t in n.targets:
+                    for x in ([t] if isinstance(t, ast.Name) else list(t.elts) if isinstance(t, (ast.Tuple, ast.List)) else []):
+                        if isinstance(x, ast.Name):
+                            got[x.id] = (n.value.func.attr, n.value)
+        if not got:
+            continue
+        scopes = [fi] + list(fi.nested.values())
+        for sc in scopes:
+            for n in own_nodes(sc):
+                nm = None
+                if isinstance(n, ast.AugAssign) and isinstance(n.target, ast.Name):
+                    nm = n.target.id
+                elif isinstance(n, ast.AugAssign) and isinstance(n.target, ast.Subscript) and isinstance(n.target.value, ast.Name):
+                    nm = n.target.value.id
+                elif isinstance(n, ast.Subscript) and isinstance(n.ctx, (ast.Store, ast.Del)) and isinstance(n.value, ast.Name):
+                    nm = n.value.id
+                elif isinstance(n, ast.Call) and isinstance(n.func, ast.Attribute) and n.func.attr in MUTATORS \
+                        and isinstance(n.func.value, ast.Name):
+                    nm = n.func.value.id
+                if nm in got and (sc is fi or nm not in resolver.locals_of(sc)):
+                    mutated_results.setdefault(got[nm][0], []).append((fi, n))
+    res.count("task-method-results-mutated-in-place", sum(len(v) for v in mutated_results.values()))
+    task_ci = prog.cls(prog.TASK)
+    for mname, sites in sorted(mutated_results.items()):
+        m = prog.lookup_method(task_ci, mname)
+        if m is None:
+            continue
+        verdict, why = _returns_fresh(prog, m)
+        fi0, n0 = sites[0]
+        key = f"models.Task.{mname}::fresh-result"
+        if verdict == "shared":
+            res.ob(False)
+            res.add(Finding(P, "C09.R5-mutated-result-is-fresh", key, m.loc(),
+                            f"Task.{mname} hands out an object it keeps ({why}) and {fi0.qualname} changes that result in place "
+                            f"(`{norm(n0, 50)}` at {fi0.module.relpath}:{n0.lineno}): the run rewrites the caller's task"))
+        elif verdict == "unknown":
+            res.errors.append(f"{m.loc()} Task.{mname}: cannot decide whether the returned object is fresh ({why}); "
+                              f"{fi0.qualname} changes it in place (undecided)")
+        else:
+            res.ob(True, f"{m.loc()} Task.{mname} returns a fresh object ({len(sites)} in-place uses of its result in optimizers)", key)
 
     # R4: self-writing methods of the caller-owned model classes on the run path
     owned = []
@@ -216,6 +323,82 @@ def run(prog: Program, res: Result) -> None:
                                 call_path(seen, m)))
     res.count("optimizer-contexts", n_ctx)
     res.floor("optimizer-contexts", 84)
+
+
+def _returns_fresh(prog: Program, m: FuncInfo, depth: int = 3) -> tuple:
+    """('fresh' | 'shared' | 'unknown', why) for the objects a method returns"""
+    from ..flow import returns_of, store_sites
+
+    def expr(e, d) -> tuple:
+        if d <= 0:
+            return "unknown", "too deep"
+        if isinstance(e, (ast.Tuple, ast.List)):
+            worst = "fresh"
+            for x in e.elts:
+                v, w = expr(x, d)
+                if v == "shared":
+                    return v, w
+                if v == "unknown":
+                    worst, why_ = v, w
+            return (worst, "" if worst == "fresh" else why_)
+        if isinstance(e, (ast.ListComp, ast.BinOp, ast.Constant, ast.DictComp, ast.SetComp, ast.Dict, ast.UnaryOp, ast.Compare)):
+            return "fresh", ""
+        if isinstance(e, ast.IfExp):
+            a, b = expr(e.body, d), expr(e.orelse, d)
+            for v in (a, b):
+                if v[0] == "shared":
+                    return v
+            return a if a[0] != "fresh" else b
+        if isinstance(e, ast.Attribute):
+            base = e
+            while isinstance(base, (ast.Attribute, ast.Subscript)):
+                base = base.value
+            if isinstance(base, ast.Name) and base.id == "self":
+                return "shared", f"it returns `{norm(e, 40)}`, state of the task"
+            return "unknown", f"`{norm(e, 40)}`"
+        if isinstance(e, ast.Subscript):
+            return expr(e.value, d)
+        if isinstance(e, ast.Call):
+            dn = dotted(e.func) or ""
+            if dn.startswith(("np.", "numpy.")) or dn in ("list", "tuple", "dict", "set", "sorted", "zip", "range", "float", "int",
+                                                          "copy.deepcopy", "deepcopy"):
+                return "fresh", ""
+            if isinstance(e.func, ast.Attribute) and e.func.attr in ("copy", "tolist", "model_copy", "astype"):
+                return "fresh", ""
+            if isinstance(e.func, ast.Attribute) and isinstance(e.func.value, ast.Name) and e.func.value.id == "self" and m.cls is not None:
+                callee = prog.lookup_method(m.cls, e.func.attr)
+                if callee is not None and callee is not m:
+                    return _returns_fresh(prog, callee, d - 1)
+            return "unknown", f"`{norm(e, 40)}`"
+        if isinstance(e, ast.Name):
+            sites = store_sites(m.node, e.id)
+            if not sites:
+                return "unknown", f"`{e.id}`"
+            worst = ("fresh", "")
+            for (_st, v, k) in sites:
+                if k == "assign" and v is not None:
+                    r = expr(v, d - 1)
+                elif k in ("aug", "for"):
+                    continue
+                else:
+                    r = ("unknown", f"`{e.id}` bound by {k}")
+                if r[0] == "shared":
+                    return r
+                if r[0] == "unknown":
+                    worst = r
+            return worst
+        return "unknown", f"`{norm(e, 40)}`"
+
+    worst = ("fresh", "")
+    for r in returns_of(m.node):
+        if r.value is None:
+            continue
+        v = expr(r.value, depth)
+        if v[0] == "shared":
+            return v
+        if v[0] == "unknown":
+            worst = v
+    return worst
 
 
 def _scopes(fi: FuncInfo):
@@ -293,6 +476,14 @@ _A = "pyvolutionary/abstract.py"
 _H = "pyvolutionary/helpers.py"
 _ANCHOR = "        leader_position = np.array(self._best_agent.position)\n"
 VARIANTS = [
+    V("get-bounds-hands-out-task-state", "pyvolutionary/models.py", "        return np.array(lb), np.array(ub)\n",
+      "        if self.data is not None and \"bounds\" in self.data:\n            return self.data[\"bounds\"]\n        return np.array(lb), np.array(ub)\n", "C09.R5"),
+    V("twin-get-bounds-through-locals", "pyvolutionary/models.py", "        return np.array(lb), np.array(ub)\n",
+      "        lower = np.array(lb)\n        upper = np.array(ub)\n        return lower, upper\n", None),
+    V("shallow-config-copy-nested-store", _W, _ANCHOR, _ANCHOR + "        run_cfg = self._config.model_copy()\n        run_cfg.early_stopping.patience = 3\n", "C09.R1"),
+    V("shallow-task-copy-list-append", _W, _ANCHOR, _ANCHOR + "        t2 = self._task.model_copy()\n        t2.variables.append(None)\n", "C09.R2"),
+    V("twin-deep-config-copy-nested-store", _W, _ANCHOR, _ANCHOR + "        run_cfg = self._config.model_copy(deep=True)\n        run_cfg.early_stopping.patience = 3\n", None),
+    V("twin-shallow-config-copy-rebind-field", _W, _ANCHOR, _ANCHOR + "        run_cfg = self._config.model_copy()\n        run_cfg.early_stopping = None\n", None),
     V("decay-config-field", _W, _ANCHOR, _ANCHOR + "        self._config.max_cycles -= 0\n", "C09.R1"),
     V("task-data-store", _W, _ANCHOR, _ANCHOR + "        self._task.data['k'] = 1\n", "C09.R1"),
     V("alias-then-sort", _W, _ANCHOR, _ANCHOR + "        w = self._task.objective_weights\n        w.sort()\n", "C09.R2"),
